@@ -175,7 +175,12 @@ namespace occa {
             continue;
           }
 
-          args.push_back(tokenContext.parseExpression(smntContext, parser));
+          // parseExpression() reports the error and returns NULL
+          exprNode *arg = tokenContext.parseExpression(smntContext, parser);
+          success &= !!arg;
+          if (arg) {
+            args.push_back(arg);
+          }
 
           if (!success) {
             freeExprNodeVector(args);
